@@ -16,6 +16,15 @@ from engine import overlay
 RUNNER = r'''
 import sys, json, os, ctypes
 spec = json.load(open(sys.argv[1]))
+if 'code' in spec:
+    out = {'exception': None}
+    try:
+        exec(spec['code'], {})
+    except BaseException as e:
+        out['exception'] = type(e).__name__
+        out['message'] = str(e)[:300]
+    print('REPLAY-JSON ' + json.dumps(out))
+    sys.exit(0)
 import cvxopt
 from cvxopt import matrix
 mod = __import__('cvxopt.' + spec['module'], fromlist=['x'])
